@@ -41,7 +41,8 @@ Record tarball := {
 Record opts := { o_expect : option ver; o_force : bool }.
 
 (* labels of fault / crash points; A-flow commands 1..8, R-flow commands 11..18,
-   Reporter.Stage n of 14 = 20+n, Stage n of 5 = 40+n, warnings 51..53 *)
+   Reporter.Stage n of 14 = 20+n, Stage n of 5 = 40+n, warnings 51..53,
+   35 = between WriteCurrentManifest and the "completed" phase write *)
 Record faults := {
   f_fail : list N;
   f_crash : option N;
@@ -77,7 +78,7 @@ Record world := {
   obst : path -> option bool;              (* directory sitting at <dir>/.<base>.new; true = not empty *)
   (* ghost state (not used by any decision of the flow): pre-upgrade state of the artifact
      paths of the upgrade the journal belongs to, whether its snapshot completed, and the
-     version really installed at that time *)
+     version current-manifest named at that time *)
   g_base : option ghost;
   g_inst : ver }.                          (* ghost: version the installed artifacts belong to *)
 
@@ -307,7 +308,9 @@ Definition post_swap (v : variant) (T : tarball) (F : faults) (from : ver) (w7 :
         (if crash_at F 53 then (w8, RCrash) else auto_rollback v F (set_phase w8 PHealthFailed))
       else
       if crash_at F 32 then (w8, RCrash) else
-      let w9 := set_phase (set_ginst (set_cur w8 (t_to T)) (t_to T)) PCompleted in
+      let w8c := set_ginst (set_cur w8 (t_to T)) (t_to T) in       (* WriteCurrentManifest *)
+      if crash_at F 35 then (w8c, RCrash) else
+      let w9 := set_phase w8c PCompleted in
       if crash_at F 33 then (w9, RCrash) else
       let w10 := prune w9 from in
       if crash_at F 34 then (w10, RCrash) else (w10, ROk)
@@ -319,11 +322,11 @@ Definition apply_flow (v : variant) (T : tarball) (F : faults) (w : world) : wor
   let arts := t_arts T in
   let base := base_of w arts in
   let w0 := set_gbase (set_jr w (Some {| j_from := from; j_to := t_to T; j_phase := PStarted |}))
-                      (Some (false, base, g_inst w)) in
+                      (Some (false, base, cur w)) in
   if crash_at F 25 then (w0, RCrash) else
   let '(w1, ok) := do_snapshot v w0 from arts in
   if negb ok then (w1, RErr) else
-  let w2 := set_phase (set_gbase w1 (Some (true, base, g_inst w))) PSnapshotDone in
+  let w2 := set_phase (set_gbase w1 (Some (true, base, cur w))) PSnapshotDone in
   if crash_at F 26 then (w2, RCrash) else
   if negb (t_hook_ok T) then (w2, RErr) else
   let w3 := set_phase w2 PPreHookDone in
@@ -381,6 +384,16 @@ Definition mon_restored (w : world) : mon :=
   | _ => MonNa
   end.
 
+(* after a reported success current-manifest must name the version of the tree the operation
+   claims to have produced: the tarball's version, resp. the version named when the restored
+   tree was snapshotted *)
+Definition ver_new (w : world) (T : tarball) : mon := if N.eqb (cur w) (t_to T) then MonOk else MonMixed.
+Definition ver_restored (w : world) : mon :=
+  match g_base w with
+  | Some (true, _, vi) => if N.eqb (cur w) vi then MonOk else MonMixed
+  | _ => MonNa
+  end.
+
 Inductive op :=
 | OpApply (T : tarball) (Q : opts) (F : faults)
 | OpRollback (F : faults)
@@ -401,6 +414,21 @@ Definition step (v : variant) (w : world) (o : op) : world * (res * mon) :=
       end
   | OpClear => (set_obst w (fun _ => None), (RCleared, MonNone))
   | OpEdit p f => (set_fs w (upd (fs w) p f), (REdited, MonNone))
+  end.
+
+(* the version monitor of the operation that led from w to w' with result r *)
+Definition step_ver (o : op) (w' : world) (r : res) : mon :=
+  match o, r with
+  | OpApply T _ _, ROk => ver_new w' T
+  | OpApply _ _ _, RErrRolledBack => ver_restored w'
+  | OpRollback _, RRbOk => ver_restored w'
+  | _, _ => MonNone
+  end.
+
+Fixpoint exec (v : variant) (w : world) (ops : list op) : world :=
+  match ops with
+  | [] => w
+  | o :: r => exec v (fst (step v w o)) r
   end.
 
 Fixpoint run (v : variant) (w : world) (ops : list op) : list (world * (res * mon)) :=
